@@ -5,7 +5,8 @@
    cut-off: dist > max_dist, argmin order) are decided on squared integers.      *)
 EXTENDS Tracking, TLC, Json
 
-CONSTANTS L, Dim, Periodic, Radii, MaxPer, NFrames, MethodC,
+CONSTANTS L, Dim, Periodic, OpenAxes,   \* OpenAxes: axes that are NOT periodic although the box is (walls)
+          Radii, MaxPer, NFrames, MethodC,
           MaxD2      \* squared cut-off; negative = every distance is cut; Unlimited = none
 Unlimited == 1000000
 NegOne == 0 - 1
@@ -16,9 +17,10 @@ DropSet == [p : Pos, r : Radii]
 FrameSet == UNION {[1..n -> DropSet] : n \in 0..MaxPer}
 
 Abs(x) == IF x < 0 THEN 0 - x ELSE x
-MD(a, b) == LET d == Abs(a - b) IN IF Periodic /\ L - d < d THEN L - d ELSE d
+\* minimum image along periodic axes, plain difference along walls
+MD(i, a, b) == LET d == Abs(a - b) IN IF Periodic /\ i \notin OpenAxes /\ L - d < d THEN L - d ELSE d
 RECURSIVE SumSq(_, _, _)
-SumSq(a, b, i) == IF i = 0 THEN 0 ELSE MD(a[i], b[i]) * MD(a[i], b[i]) + SumSq(a, b, i - 1)
+SumSq(a, b, i) == IF i = 0 THEN 0 ELSE MD(i, a[i], b[i]) * MD(i, a[i], b[i]) + SumSq(a, b, i - 1)
 Dist2(a, b) == SumSq(a.p, b.p, Dim)
 OvL(a, b) == Dist2(a, b) < (a.r + b.r) * (a.r + b.r)
 DKeyL(a, b) == IF MaxD2 # Unlimited /\ Dist2(a, b) > MaxD2 THEN InfC ELSE Dist2(a, b)
